@@ -106,7 +106,9 @@ pub fn gen_graph(r: &mut Rng, thorough: bool) -> Graph {
     let mut specs = vec![];
     for k in 0..n {
         if Some(k) == phantom {
-            specs.push(nodes::phantom_spec());
+            // the real PhantomData identity half of the time, else `()`, `str` or `u8`
+            let kind = if r.chance(1, 2) { 0 } else { 1 + r.below(3) as usize };
+            specs.push(nodes::real_spec(kind));
             continue;
         }
         let kk = k as u64;
